@@ -1,3 +1,10 @@
 import PeptVerif.Props.C03
 #print axioms Pept.C03.ion_tables_agree
 #print axioms Pept.C03.protons_text_roundtrip
+#print axioms Pept.C03.chemMass_add
+#print axioms Pept.C03.chemMass_smul
+#print axioms Pept.C03.chemMass_merge
+#print axioms Pept.C03.chemMass_dropZeros
+#print axioms Pept.C03.chemMass_eq_linear
+#print axioms Pept.C03.estimate_comp_mass
+#print axioms Pept.C03.comp_estimate_mass
